@@ -230,11 +230,11 @@ class LazyInit(Strategy):
                 t = cand[sim.rng.randrange(len(cand))]
                 self.parked.discard(t.idx)
                 return t
-        if event != "line":
+        if event != "line" and event != "opcode":
             return None
         if (frame.f_code.co_filename, frame.f_lineno) not in self.sites:
             return None
-        if sim.rng.random() >= self.q:
+        if sim.rng.random() >= (self.q if event == "line" else self.q / 6.0):
             return None
         others = self._others(sim)
         if not others:
@@ -327,6 +327,7 @@ class Sim:
         strategy: Strategy,
         trace_prefixes: Sequence[str],
         opcode_files: Sequence[str] = (),
+        opcode_sites: Optional[Dict[str, Sequence[int]]] = None,
         step_cap: int = 2_000_000,
         probe_sites: Optional[Dict[str, str]] = None,
     ):
@@ -334,6 +335,8 @@ class Sim:
         self.strategy = strategy
         self.prefixes = tuple(trace_prefixes)
         self.opcode_files = tuple(opcode_files)
+        # opcode granularity only inside functions that contain a lazy-initialisation site
+        self.opcode_sites = {f: frozenset(ls) for f, ls in (opcode_sites or {}).items()}
         self.step_cap = step_cap
         self.threads: List[SimThread] = []
         self.current: Optional[SimThread] = None
@@ -379,6 +382,10 @@ class Sim:
                 # @contextmanager generator is being resumed for __exit__): lines only there
                 if self.opcode_files and fn.endswith(self.opcode_files) and not (code.co_flags & 0x2A0):
                     r = 2
+                elif fn in self.opcode_sites and not (code.co_flags & 0x2A0):
+                    lines = {ln for _, _, ln in code.co_lines() if ln}
+                    if lines & self.opcode_sites[fn]:
+                        r = 2
             self._code_traced[code] = r
         return r
 
